@@ -292,24 +292,80 @@ func verifC19Lenient(entry string) (netip.Prefix, string, bool) {
 	return netip.Prefix{}, "garbage", false
 }
 
-// verifC19Witnesses returns addresses inside p: the first one and a pseudo-random one.
+// verifC19Witnesses returns addresses inside p: the first one, the LAST one and two seeded interior
+// ones (for /32 and /128 they coincide).  A policy that only honours part of an entry's range – e.g.
+// because the entry was merged away in favour of a narrower one with the same base – is refuted by
+// the last / interior witnesses.
 func verifC19Witnesses(p netip.Prefix, entry string) []netip.Addr {
 	first := p.Addr()
-	b := first.AsSlice()
-	h := sha256.Sum256([]byte("c19-witness/" + entry))
 	bits := p.Bits()
-	for i := range b {
-		for j := 0; j < 8; j++ {
-			if i*8+j >= bits && h[i]&(0x80>>uint(j)) != 0 {
-				b[i] |= 0x80 >> uint(j)
+	fill := func(pick func(i, j int) bool) netip.Addr {
+		b := first.AsSlice()
+		for i := range b {
+			for j := 0; j < 8; j++ {
+				if i*8+j >= bits && pick(i, j) {
+					b[i] |= 0x80 >> uint(j)
+				}
 			}
 		}
+		a, _ := netip.AddrFromSlice(b)
+		return a
 	}
-	second, _ := netip.AddrFromSlice(b)
-	if second == first || !p.Contains(second) {
-		return []netip.Addr{first}
+	out := []netip.Addr{first, fill(func(int, int) bool { return true })}
+	for _, salt := range []string{"c19-witness/", "c19-witness-2/"} {
+		h := sha256.Sum256([]byte(salt + entry))
+		out = append(out, fill(func(i, j int) bool { return h[i]&(0x80>>uint(j)) != 0 }))
 	}
-	return []netip.Addr{first, second}
+	// an address in the upper half of the range (the half a narrower same-base entry can never cover)
+	out = append(out, fill(func(i, j int) bool { return i*8+j == bits }))
+	var uniq []netip.Addr
+	for _, a := range out {
+		dup := !p.Contains(a)
+		for _, u := range uniq {
+			if u == a {
+				dup = true
+			}
+		}
+		if !dup {
+			uniq = append(uniq, a)
+		}
+	}
+	return uniq
+}
+
+// verifC19Loopback returns the IPv4 loopback subnets that net.Interfaces() reports on this machine
+// right now (normally 127.0.0.0/8 on lo).  covert_blocklist_public_addrs promises to blocklist the
+// subnets of the local devices; this one is asserted because it exists wherever the check runs –
+// and only if the machine really reports it.
+func verifC19Loopback() []netip.Prefix {
+	var out []netip.Prefix
+	ifaces, err := net.Interfaces()
+	if err != nil {
+		return nil
+	}
+	for _, ifc := range ifaces {
+		if ifc.Flags&net.FlagLoopback == 0 || ifc.Flags&net.FlagUp == 0 {
+			continue
+		}
+		addrs, err := ifc.Addrs()
+		if err != nil {
+			continue
+		}
+		for _, a := range addrs {
+			ipn, ok := a.(*net.IPNet)
+			if !ok {
+				continue
+			}
+			v4 := ipn.IP.To4()
+			ones, sz := ipn.Mask.Size()
+			if v4 == nil || v4[0] != 127 || sz != 32 {
+				continue
+			}
+			addr, _ := netip.AddrFromSlice(v4)
+			out = append(out, netip.PrefixFrom(addr, ones).Masked())
+		}
+	}
+	return out
 }
 
 func verifC19In(ps []netip.Prefix, a netip.Addr) bool {
@@ -351,6 +407,8 @@ type verifC19Env struct {
 	logbuf    bytes.Buffer
 	regbuf    verifC19Sink
 	steps     int
+	// IPv4 loopback subnets reported by net.Interfaces() on this machine (may be empty)
+	loopback []netip.Prefix
 	// what the repository's own loader makes of each subnets file (the files of the pool never change)
 	subCache map[string]verifC19Fresh
 	// the file CJ_STATION_CONFIG points at right now
@@ -666,6 +724,14 @@ func (e *verifC19Env) enforce(rc *RegConfig, text, class, where string) {
 			blockP = append(blockP, p)
 		}
 	}
+	// an entry that is not in force: unparsable-as-written entries keep the old signature family, a
+	// well-formed entry that vanished gets its own
+	dropSig := func(list, entry, cls string) string {
+		if cls == "strict" {
+			return "enforce:wellformed-not-in-force:" + origin(list, entry) + list
+		}
+		return "enforce:dropped:" + origin(list, entry) + list
+	}
 	viol := func(sig, msg string, detail map[string]interface{}) {
 		detail["config"] = text
 		detail["config_class"] = class
@@ -697,13 +763,37 @@ func (e *verifC19Env) enforce(rc *RegConfig, text, class, where string) {
 						fmt.Sprintf("covert %s lies inside blocklist entry %q, the entry was parsed, yet ParseOrResolveBlocklisted admits it as %q", covert, s, out),
 						map[string]interface{}{"entry": s, "entry_class": cls, "witness": covert, "admitted_as": out})
 				} else {
-					viol("enforce:dropped:"+origin("covert_blocklist_subnets", s)+"covert_blocklist_subnets",
+					viol(dropSig("covert_blocklist_subnets", s, cls),
 						fmt.Sprintf("covert_blocklist_subnets entry %q (%s) of an accepted configuration is not in force: covert %s is admitted as %q", s, cls, covert, out),
 						map[string]interface{}{"entry": s, "entry_class": cls, "witness": covert, "admitted_as": out})
 				}
 				break
 			}
 			e.rec.Count("witness_refused", 1)
+		}
+	}
+
+	// covert_blocklist_public_addrs = true (literally in the file): the loopback subnet that this machine
+	// reports must be refused in full.  Nothing else about the machine's interfaces is asserted.
+	if l.Public {
+		for _, p := range e.loopback {
+			e.rec.Count("entries_checked", 1)
+			for _, w := range verifC19Witnesses(p, "lo/"+p.String()) {
+				if verifC19In(allowP, w) {
+					e.rec.Count("witness_skipped_allowlist_precedence", 1)
+					continue
+				}
+				covert := net.JoinHostPort(w.String(), "443")
+				out, _ := rc.ParseOrResolveBlocklisted(covert)
+				e.rec.Count("witness_checks", 1)
+				if out != "" {
+					viol("enforce:public-addrs-loopback-not-refused",
+						fmt.Sprintf("covert_blocklist_public_addrs is on and this machine's loopback interface carries %s, yet covert %s is admitted as %q", p, covert, out),
+						map[string]interface{}{"interface_subnet": p.String(), "witness": covert, "admitted_as": out, "covert_blocklist_subnets": l.Block})
+					break
+				}
+				e.rec.Count("witness_refused", 1)
+			}
 		}
 	}
 
@@ -739,7 +829,7 @@ func (e *verifC19Env) enforce(rc *RegConfig, text, class, where string) {
 						map[string]interface{}{"entry": s, "entry_class": cls, "witness": covert, "answer": out})
 				} else {
 					allowBroken = true
-					viol("enforce:dropped:"+origin("covert_allowlist_subnets", s)+"covert_allowlist_subnets",
+					viol(dropSig("covert_allowlist_subnets", s, cls),
 						fmt.Sprintf("covert_allowlist_subnets entry %q (%s) of an accepted configuration is not in force: covert %s inside it is answered %q", s, cls, covert, out),
 						map[string]interface{}{"entry": s, "entry_class": cls, "witness": covert, "answer": out})
 				}
@@ -799,7 +889,7 @@ func (e *verifC19Env) enforce(rc *RegConfig, text, class, where string) {
 					viol("enforce:not-refused:phantom_blocklist", fmt.Sprintf("phantom %s lies inside phantom_blocklist entry %q, the entry was parsed, yet IsBlocklistedPhantom says false", w, s),
 						map[string]interface{}{"entry": s, "entry_class": cls, "witness": w.String()})
 				} else {
-					viol("enforce:dropped:"+origin("phantom_blocklist", s)+"phantom_blocklist",
+					viol(dropSig("phantom_blocklist", s, cls),
 						fmt.Sprintf("phantom_blocklist entry %q (%s) of an accepted configuration is not in force: phantom %s is not refused", s, cls, w),
 						map[string]interface{}{"entry": s, "entry_class": cls, "witness": w.String()})
 				}
@@ -1087,6 +1177,8 @@ func TestVerifC19Config(t *testing.T) {
 		rec.Distinct("subnet_files", f.Name, lerr == nil)
 	}
 	e.baseText = kit.C19Base(e.garbageDB).Text
+	e.loopback = verifC19Loopback()
+	rec.Note(fmt.Sprintf("loopback subnets reported by net.Interfaces(): %v (asserted only for files with covert_blocklist_public_addrs = true)", e.loopback))
 	verifC19InstallResolver()
 	// self-test of the scripted resolver (infrastructure, not a verdict)
 	if out, _ := (&RegConfig{}).ParseOrResolveBlocklisted("fine.example.net:443"); out != "198.51.100.7:443" {
